@@ -768,6 +768,8 @@ class Interp:
             path = tg[1:]
             for p in path[:-1]:
                 o = o.fields.get(p)
+                if isinstance(o, VOpt):
+                    o = o.inner      # an optional collaborator: havoc what is behind it (no-op when it is None)
                 if not isinstance(o, VObj):
                     return
             cur = o.fields.get(path[-1])
